@@ -763,7 +763,7 @@ def run(ctx, known, built):
     if summ["l1_float_failures"]:
         ctx.disagreements.append({"what": "L1 hypothesis fails: float Display/parse is not the identity or prints white space",
                                   "examples": summ["l1_float_failures"]})
-    ctx.obligation("L1:float-display-parse (%d values)" % summ["l1_float_checks"], not summ["l1_float_failures"],
+    ctx.obligation("L1:float-and-date-print-parse (%d values)" % summ["l1_float_checks"], not summ["l1_float_failures"],
                    "Display then parse is not the identity")
 
     # --- encoder side: per case, oracle + Gallina case
